@@ -49,6 +49,9 @@ func sameClass(vs []Violation, prop, rule string) *Violation {
 }
 
 // minimise shrinks the recorded tape while the same (property, rule) fires.
+// minimiseTick is called before every candidate run (worker heartbeat).
+var minimiseTick = func() {}
+
 func minimise(t *testing.T, spec CaseSpec, rec map[string][]uint64, prop, rule string, budget time.Duration, maxTries int) (CaseSpec, *CaseResult) {
 	deadline := time.Now().Add(budget)
 	cur := map[string][]uint64{}
@@ -62,6 +65,7 @@ func minimise(t *testing.T, spec CaseSpec, rec map[string][]uint64, prop, rule s
 			return false
 		}
 		tries++
+		minimiseTick()
 		s := spec
 		s.Streams = cand
 		res := RunCase(t, s)
